@@ -5,6 +5,7 @@
 package main
 
 import (
+	"context"
 	"encoding/json"
 	"fmt"
 	"math"
@@ -179,6 +180,10 @@ func impl(ops []string) []string {
 					return
 				}
 				cc.prevOff, _ = strconv.ParseInt(w[8], 10, 64)
+				cc.batch, _ = strconv.Atoi(kv["batch"])
+				if cc.batch <= 0 {
+					cc.batch = 1000
+				}
 				cc.feeOn = w[1] == "1"
 				cc.maxBlockCost, _ = strconv.Atoi(w[2])
 				cc.maxByteSize, _ = strconv.ParseInt(w[3], 10, 64)
@@ -324,6 +329,8 @@ func impl(ops []string) []string {
 				if err != nil {
 					msg := err.Error()
 					switch {
+					case err == context.DeadlineExceeded || err == context.Canceled:
+						outs[i] = "verify-timeout"
 					case strings.Contains(msg, "duplicate_transactions"):
 						outs[i] = "fail dup"
 					case strings.Contains(msg, "txn_validation_failed"):
@@ -502,7 +509,9 @@ func gen(r *rand.Rand, thorough bool, i int) []string {
 	if blockD < 0 {
 		blockD = 0
 	}
-	ops := []string{fmt.Sprintf("init %s %d %d %d %d %d %d %d %s %s @costs=%s", fee01, maxCost, maxBytes, minSize, minFee, idMiner, timeTol, prevOff, a, b, strings.Join(ctab, ","))}
+	// the verifier's validation batch size: small, so that block sizes at, below and above exact multiples occur all the time
+	batch := []int{1, 2, 2, 3, 4, 4, 5, 1000}[r.Intn(8)]
+	ops := []string{fmt.Sprintf("init %s %d %d %d %d %d %d %d %s %s @costs=%s @batch=%d", fee01, maxCost, maxBytes, minSize, minFee, idMiner, timeTol, prevOff, a, b, strings.Join(ctab, ","), batch)}
 	usedDate := map[[3]int64]bool{}
 
 	n := 3 + r.Intn(22)
@@ -537,9 +546,18 @@ func gen(r *rand.Rand, thorough bool, i int) []string {
 		case "send":
 			t.costN, t.cost = 10, "10"
 			t.pad = []int{0, 0, 0, 5, 40}[r.Intn(5)]
+			if r.Intn(14) == 0 { // addressed to the sender itself (the admission handler refuses these; the generator must cope)
+				t.to = t.sender
+				if r.Intn(3) != 0 {
+					t.value = 0
+				}
+			}
 		case "data":
 			t.costN, t.cost = 0, "0"
 			t.pad = []int{0, 3, 20, 120}[r.Intn(4)]
+			if r.Intn(14) == 0 {
+				t.to = t.sender
+			}
 		case "invalid":
 			t.cost = "x"
 			t.pad = r.Intn(10)
@@ -899,6 +917,9 @@ func oracle(ops, outs []string) *corr.Violation {
 				continue
 			}
 			// the honest block failed honest verification
+			if outs[i] == "verify-timeout" {
+				return mk("honest-block-fails-verification:timeout", "VerifyBlock did not answer within its deadline (twice) for block "+outs[genIdx], i)
+			}
 			if outs[i] == "fail txn" && blkLate != "" {
 				return mk("honest-block-fails-verification-time-tolerance", "the generator included a transaction that is outside the time tolerance of the block's creation date; the verifier, which measures against that date, rejects the block: "+blkLate, i)
 			}
@@ -918,6 +939,18 @@ func oracle(ops, outs []string) *corr.Violation {
 			}
 			if outs[i] == "fail txn" && dupName {
 				known = mk("pool-transaction-with-builtin-name-fails-verification", "a pool transaction whose function NAME equals a built-in one is included by the generator; the verifier rejects the block as 'duplicated build-in transaction'", i)
+				continue
+			}
+			selfAddr := ""
+			for _, e := range block {
+				if !strings.HasPrefix(e.key, "b") {
+					if k, _ := strconv.Atoi(e.key); pool[k][2] == pool[k][3] {
+						selfAddr = e.key
+					}
+				}
+			}
+			if outs[i] == "fail txn" && selfAddr != "" {
+				known = mk("self-addressed-transaction-included-but-rejected-by-verifier", "pool transaction "+selfAddr+" has ToClientID == ClientID; its state update succeeds (a zero amount is skipped before the from==to test, a data transaction transfers nothing) so the generator includes it; the verifier's ValidateWrtTimeForBlock refuses it and the honest block fails with txn_validation_failed", i)
 				continue
 			}
 			if outs[i] == "fail cost" && blkMaxInt {
@@ -983,7 +1016,21 @@ func fixedCases() [][]string {
 	late := tx("send", 5, 6, 1, 100000000, 1, "", "", 10)
 	late.created = -timeTol - 1000
 	at := func(t *gtxn, created int64) *gtxn { c := *t; c.created = created; return &c }
+	b2 := " @batch=2"
 	return [][]string{
+		// validation batch size 2 / 3 / 4 with blocks of exactly one, two batches, and one more / one less
+		mkCase("init 0 10000 1638400 1 0 3 600 0 "+richAccts+" - "+costs+b2, []*gtxn{tx("send", 5, 6, 5, 0, 1, "", "", 10), tx("send", 5, 6, 5, 0, 2, "", "", 10)}, "gen 1", "verify"),
+		mkCase("init 1 10000 1638400 1 0 3 600 0 "+richAccts+" p~100~ok~3 "+costs+b2, []*gtxn{tx("send", 5, 6, 5, 100000000, 1, "", "", 10), tx("send", 5, 6, 5, 100000000, 2, "", "", 10), tx("send", 7, 6, 5, 100000000, 1, "", "", 10)}, "gen 1", "verify"),
+		mkCase("init 1 10000 1638400 1 0 3 600 0 "+richAccts+" p~100~ok~3 "+costs+b2, []*gtxn{tx("send", 5, 6, 5, 100000000, 1, "", "", 10), tx("send", 5, 6, 5, 100000000, 2, "", "", 10)}, "gen 1", "verify"),
+		mkCase("init 1 10000 1638400 1 0 3 600 0 "+richAccts+" p~100~ok~3 "+costs+" @batch=3", []*gtxn{tx("send", 5, 6, 5, 100000000, 1, "", "", 10), tx("send", 5, 6, 5, 100000000, 2, "", "", 10)}, "gen 1", "verify"),
+		mkCase("init 1 10000 1638400 1 0 3 600 0 "+richAccts+" p~100~ok~3 "+costs+" @batch=4", []*gtxn{tx("send", 5, 6, 5, 100000000, 1, "", "", 10), tx("send", 5, 6, 5, 100000000, 2, "", "", 10), tx("send", 7, 6, 5, 100000000, 1, "", "", 10)}, "gen 1", "verify"),
+		mkCase("init 1 10000 1638400 1 0 3 600 0 "+richAccts+" p~100~ok~3 "+costs+" @batch=1", []*gtxn{tx("send", 5, 6, 5, 100000000, 1, "", "", 10)}, "gen 1", "verify"),
+		// FINDING: a transaction addressed to its own sender — send of value 0 (fees off / fee 0 / fee > 0), data — is included
+		// by the generator and refused by the verifier; a self-send of a positive value is refused by the engine
+		mkCase("init 0 10000 1638400 1 0 3 600 0 "+richAccts+" - "+costs, []*gtxn{tx("send", 5, 5, 0, 0, 1, "", "", 10)}, "gen 1", "verify"),
+		mkCase("init 1 10000 1638400 1 0 3 600 0 "+richAccts+" p~100~ok~3 "+costs, []*gtxn{tx("send", 5, 5, 0, 100000000, 1, "", "", 10), tx("send", 7, 6, 1, 100000000, 1, "", "", 10)}, "gen 1", "verify"),
+		mkCase("init 0 10000 1638400 1 0 3 600 0 "+richAccts+" - "+costs, []*gtxn{tx("data", 5, 5, 0, 0, 1, "", "", 0)}, "gen 1", "verify"),
+		mkCase("init 0 10000 1638400 1 0 3 600 0 "+richAccts+" - "+costs, []*gtxn{tx("send", 5, 5, 7, 0, 1, "", "", 10), tx("send", 7, 6, 1, 0, 1, "", "", 10)}, "gen 1", "verify"),
 		// clock skew: the previous block is dated 300 s ahead of this node's clock, the new block is dated 300 and the window
 		// is [-300, 900] — not [-600, 600]. Both edges to the second; -450 is fresh by the clock but stale for the block,
 		// 700 is in the future by the clock but fine for the block
